@@ -15,12 +15,17 @@ Proved, for all values in range / all lists:
        exactly *the* matching item when keys are distinct; the method cache key of the unfixed code
        (string concatenation) is injective on valid names; the field cache key is NOT (kernel-checked
        witness, replayed on the real code by corpus/C05) — hence the fix to tuple keys.
-Partial: the file-level statement `C05_full` (parse ∘ encode = id for every layout) is not proved;
-`parse_encode_partial` proves the part from the loaded tables to the view under the hypothesis that
-every stored index designates the table row the writer meant (OffsetsResolve).  The byte-level
-loader (sections → tables) is covered by the correspondence and the oracle on every generated file.
+  file `parse_encode` (= `C05_full`): for every file that `Encodes` well-formed tables T in any layout L
+       (any order / placement of sections, any LEB128 padding, extra map entries) the loader reads
+       the map list back, ends in exactly the ClassManager state the tables denote and `parseDex`
+       returns the declared view; built from `string_table_from_file` … `class_defs_from_file`
+       (one per section, composition of the L1 round trips), the load order of C07 and
+       `view_of_tables`.  Restriction: code items without tries (try/handler contents are C08's
+       subject).  Non-vacuity: a 636-byte DEX written by harness/dexasm.py (Proof/DexExample.lean).
 -/
 import AgVerif.Proof.DexFile
+import AgVerif.Proof.DexLoadView
+import AgVerif.Proof.DexExample
 namespace AgVerif.C05
 open AgVerif.DexFile AgVerif.Spec.Leb
 open AgVerif.Spec.DexFile (ushort uint ULeb protoId fieldId methodId classDef typeListBody codeHdr EncFields EncMethods EncClassData diffs undiffs Ascending)
@@ -162,89 +167,118 @@ theorem parse_encode_partial (cm : CM) (fs : List FieldR) (ms : List MethodR)
   · intro f r h; simp [viewField, hF, h]
   · intro m r h; simp [viewMethod, hM, h]
 
-/-! ### the full file-level statement (NOT proved) -/
+/-! ## file level: sections → tables → view
 
-/-- `file` holds `bs` at byte offset `off` -/
-def At (file : Bytes) (off : Nat) (bs : Bytes) : Prop :=
-  ∃ pre post, file = pre ++ bs ++ post ∧ pre.length = off
+Vocabulary (AgVerif/Proof/DexTables.lean): `Tables` (the rows of the ten sections the loader looks
+at, with the writer's encoding choices: uleb128 items, padding bytes), `Layout` (offset of the map
+list and the map list itself — any order of entries, any offsets, gaps or overlaps, any extra
+entries of item types the loader ignores), `Encodes file L T` (header → map list; every section is
+stored at the offset its map entry gives as the concatenation of the specification encodings of
+its rows; sections the format wants 4-aligned are), `WF T L` (decidable: value ranges, the
+sections a table refers to exist, prototype / type-list references of methods and classes
+designate rows), `tablesCM T L` (the ClassManager state the tables denote, offset-addressed rows
+keyed by the offsets the layout assigns), `declared T L` (the view the tables denote).
+The first delivery's `C05_full` lacked the WF hypotheses and was false without them (a type_ids
+section without a string_ids section makes the real loader raise KeyError). -/
 
-/-- the raw tables of a DEX file, as the format document names them (code items without tries) -/
-structure Tables where
-  strings : List (Bytes × Bytes)        -- (uleb128 item of utf16_size, MUTF-8 bytes without the NUL)
-  stringIds : List Nat
-  typeIds : List Nat
-  protoIds : List ProtoId
-  fieldIds : List FieldId
-  methodIds : List MethodId
-  typeLists : List (List Nat)
-  classData : List (ClassData × Bytes)   -- content and an encoding of it (EncClassData)
-  codes : List Code
-  classDefs : List ClassDef
+/-- STRING_DATA_ITEM: the strings of the file, in file order, keyed by their offsets -/
+theorem string_table_from_file (file : Bytes) (L : Layout) (T : Tables) (e : LoadOrder.MapEntry)
+    (henc : Encodes file L T) (he : L.sec 0x2002 = some e) (cm : CM) :
+    step file cm e = .ok { cm with strData := some (strTab T L) } := step_strData henc he cm
 
-def mapEntryBytes (e : LoadOrder.MapEntry) : Bytes :=
-  ushort e.type ++ ushort 0 ++ uint e.size ++ uint e.offset
+/-- STRING_ID_ITEM -/
+theorem string_ids_from_file (file : Bytes) (L : Layout) (T : Tables) (e : LoadOrder.MapEntry)
+    (henc : Encodes file L T) (hwf : WF T L) (he : L.sec 0x0001 = some e) (cm : CM) :
+    step file cm e = .ok { cm with stringIds := some T.stringIds } := step_stringIds henc hwf he cm
 
-/-- a section of `n` items of map type `t` is listed in the map iff it is not empty -/
-def Listed (es : List LoadOrder.MapEntry) (t n off : Nat) : Prop :=
-  (n = 0 ∧ ∀ e ∈ es, e.type ≠ t) ∨ (n ≠ 0 ∧ ⟨t, n, off⟩ ∈ es)
+/-- TYPE_ID_ITEM (its constructor looks the descriptor up: string_ids must be loaded) -/
+theorem type_table_from_file (file : Bytes) (L : Layout) (T : Tables) (e : LoadOrder.MapEntry)
+    (henc : Encodes file L T) (hwf : WF T L) (he : L.sec 0x0002 = some e) (cm : CM)
+    (hs : T.typeIds ≠ [] → ∃ ids, cm.stringIds = some ids) :
+    step file cm e = .ok { cm with typeIds := some T.typeIds } := step_typeIds henc hwf he cm hs
 
-def encCode (c : Code) : Bytes :=
-  codeHdr c.hdr.regs c.hdr.ins c.hdr.outs 0 c.hdr.debugOff c.hdr.insnsSize ++ c.insns
+/-- TYPE_LIST: the lists keyed by their offsets (an odd list is followed by two bytes of padding) -/
+theorem type_lists_from_file (file : Bytes) (L : Layout) (T : Tables) (e : LoadOrder.MapEntry)
+    (henc : Encodes file L T) (hwf : WF T L) (he : L.sec 0x1001 = some e) (cm : CM) :
+    step file cm e = .ok { cm with typeLists := some (tlTab T L) } := step_typeLists henc hwf he cm
 
-/-- bytes of a 4-aligned sequence of items starting at an aligned offset -/
-def aligned4 : List Bytes → Bytes
-  | [] => []
-  | b :: bs => b ++ List.replicate ((4 - b.length % 4) % 4) 0 ++ aligned4 bs
+/-- PROTO_ID_ITEM: every row with its shorty and return type resolved against the tables -/
+theorem proto_table_from_file (file : Bytes) (L : Layout) (T : Tables) (e : LoadOrder.MapEntry)
+    (henc : Encodes file L T) (hwf : WF T L) (he : L.sec 0x0003 = some e) (cm : CM)
+    (hb : T.protoIds ≠ [] → Base cm T L) :
+    step file cm e = .ok { cm with protoIds := some (T.protoIds.map (protoR T L)) } :=
+  step_protoIds henc hwf he cm hb
 
-/-- `file` is an encoding of the tables `T` in some layout: the header designates a map list with
-    pairwise distinct member types; every non-empty section is listed and stored at its offset as
-    the concatenation of the specification encodings of its rows (type lists and code items
-    4-aligned). -/
-def Encodes (file : Bytes) (T : Tables) (es : List LoadOrder.MapEntry) : Prop :=
-  ∃ (mapOff : Nat) (o1 o2 o3 o4 o5 o6 o7 o8 o9 o10 : Nat),
-    mapOff ≠ 0 ∧ At file 0x34 (uint mapOff) ∧
-    At file mapOff (uint es.length ++ es.flatMap mapEntryBytes) ∧
-    (es.map (·.type)).Nodup ∧ (∀ e ∈ es, e.type ∈ Gen.MapDeps.members.map (·.2)) ∧
-    (∀ e ∈ es, e.size < 2 ^ 32 ∧ e.offset < 2 ^ 32 ∧ e.offset % 4 = 0) ∧
-    Listed es 0x2002 T.strings.length o1 ∧ At file o1 (T.strings.flatMap fun s => s.1 ++ s.2 ++ [0]) ∧
-      (∀ s ∈ T.strings, (∃ n, ULeb s.1 n) ∧ 0 ∉ s.2) ∧
-    Listed es 0x0001 T.stringIds.length o2 ∧ At file o2 (T.stringIds.flatMap uint) ∧
-    Listed es 0x0002 T.typeIds.length o3 ∧ At file o3 (T.typeIds.flatMap uint) ∧
-    Listed es 0x0003 T.protoIds.length o4 ∧
-      At file o4 (T.protoIds.flatMap fun p => protoId p.shorty p.ret p.paramsOff) ∧
-    Listed es 0x0004 T.fieldIds.length o5 ∧ At file o5 (T.fieldIds.flatMap fun f => fieldId f.cls f.typ f.name) ∧
-    Listed es 0x0005 T.methodIds.length o6 ∧
-      At file o6 (T.methodIds.flatMap fun m => methodId m.cls m.proto m.name) ∧
-    Listed es 0x1001 T.typeLists.length o7 ∧ At file o7 (aligned4 (T.typeLists.map typeListBody)) ∧
-    Listed es 0x2000 T.classData.length o8 ∧ At file o8 (T.classData.flatMap (·.2)) ∧
-      (∀ c ∈ T.classData, EncClassData (c.1.sf.map fun f => (f.idx, f.flags)) (c.1.inf.map fun f => (f.idx, f.flags))
-          (c.1.dm.map fun m => (m.idx, m.flags, m.codeOff)) (c.1.vm.map fun m => (m.idx, m.flags, m.codeOff)) c.2) ∧
-    Listed es 0x2001 T.codes.length o9 ∧ At file o9 (aligned4 (T.codes.map encCode)) ∧
-      (∀ c ∈ T.codes, c.hdr.tries = 0 ∧ c.insns.length = 2 * c.hdr.insnsSize) ∧
-    Listed es 0x0006 T.classDefs.length o10 ∧
-      At file o10 (T.classDefs.flatMap fun c =>
-        classDef c.cls c.access c.super c.ifacesOff c.srcIdx c.annOff c.dataOff c.staticOff)
+/-- FIELD_ID_ITEM: class, type and name resolved -/
+theorem field_table_from_file (file : Bytes) (L : Layout) (T : Tables) (e : LoadOrder.MapEntry)
+    (henc : Encodes file L T) (hwf : WF T L) (he : L.sec 0x0004 = some e) (cm : CM)
+    (hb : T.fieldIds ≠ [] → Base cm T L) :
+    step file cm e = .ok { cm with fieldIds := some (T.fieldIds.map (fieldR T L)) } :=
+  step_fieldIds henc hwf he cm hb
 
-/-- The full statement: for EVERY file that encodes tables `T` (any layout, any LEB128 padding),
-    the loader reads exactly the rows of `T` — strings, string/type ids, type lists, class data and
-    code items in file order — and resolves every proto/field/method id and class def against
-    them.  NOT proved: what is missing is the induction over each section (`decSeq` over the
-    concatenated rows, built from the L1 round trips above), alignment, and the frame argument that
-    sections do not overlap.  Covered on every generated file by the correspondence and the oracle
-    of harness/props/c05.py. -/
+/-- METHOD_ID_ITEM: class, name, parameter string and return type of the prototype resolved -/
+theorem method_table_from_file (file : Bytes) (L : Layout) (T : Tables) (e : LoadOrder.MapEntry)
+    (henc : Encodes file L T) (hwf : WF T L) (he : L.sec 0x0005 = some e) (cm : CM)
+    (hb : T.methodIds ≠ [] → Base cm T L ∧ cm.typeLists.getD [] = tlTab T L ∧
+      cm.protoIds = some (T.protoIds.map (protoR T L))) :
+    step file cm e = .ok { cm with methodIds := some (T.methodIds.map (methodR T L)) } :=
+  step_methodIds henc hwf he cm hb
+
+/-- CLASS_DATA_ITEM: the class data items keyed by their offsets -/
+theorem class_data_from_file (file : Bytes) (L : Layout) (T : Tables) (e : LoadOrder.MapEntry)
+    (henc : Encodes file L T) (he : L.sec 0x2000 = some e) (cm : CM) :
+    step file cm e = .ok { cm with classData := some (cdTab T L) } := step_classData henc he cm
+
+/-- CODE_ITEM: the code items keyed by their (4-aligned) offsets -/
+theorem code_from_file (file : Bytes) (L : Layout) (T : Tables) (e : LoadOrder.MapEntry)
+    (henc : Encodes file L T) (hwf : WF T L) (he : L.sec 0x2001 = some e) (cm : CM) :
+    step file cm e = .ok { cm with codes := some (codeTab T L) } := step_codes henc hwf he cm
+
+/-- CLASS_DEF_ITEM: name, superclass, interfaces and class data resolved -/
+theorem class_defs_from_file (file : Bytes) (L : Layout) (T : Tables) (e : LoadOrder.MapEntry)
+    (henc : Encodes file L T) (hwf : WF T L) (he : L.sec 0x0006 = some e) (cm : CM)
+    (hb : T.classDefs ≠ [] → Base cm T L ∧ cm.typeLists.getD [] = tlTab T L ∧
+      cm.classData.getD [] = cdTab T L) :
+    step file cm e = .ok { cm with classDefs := some (T.classDefs.map (classR T L)) } :=
+  step_classDefs henc hwf he cm hb
+
+/-- header.map_off and the map list are read back as the layout has them -/
+theorem map_list_from_file (file : Bytes) (L : Layout) (T : Tables) (henc : Encodes file L T) :
+    (∃ r, u32 (file.drop 0x34) = some (L.mapOff, r)) ∧ readMap file L.mapOff = .ok L.map :=
+  ⟨header_enc henc, readMap_enc henc⟩
+
+/-- sections → tables, composed over the load order: whatever the order of the map entries, the
+    loader ends in exactly the ClassManager state the tables denote -/
+theorem tables_from_file (file : Bytes) (L : Layout) (T : Tables) (hwf : WF T L) (henc : Encodes file L T) :
+    loadEntries file L.map = .ok (tablesCM T L) := loadEntries_tables henc hwf
+
+/-- tables → view -/
+theorem view_of_tables (file : Bytes) (L : Layout) (T : Tables) (hwf : WF T L) (henc : Encodes file L T) :
+    viewOf (tablesCM T L) = .ok (declared T L) := viewOf_tables henc hwf
+
+/-- The full file-level statement: for EVERY file that encodes well-formed tables `T` in ANY
+    layout `L` (any LEB128 padding, any order and placement of the sections), the loader reads the
+    map list back, ends in exactly the state the tables denote, and `parseDex` reports exactly the
+    view the file declares. -/
 def C05_full : Prop :=
-  ∀ (file : Bytes) (T : Tables) (es : List LoadOrder.MapEntry), Encodes file T es →
-    (∃ mapOff, u32 (file.drop 0x34) = some (mapOff, file.drop 0x38) ∧ readMap file mapOff = .ok es) ∧
-    ∃ cm : CM, loadEntries file es = .ok cm ∧
-      cm.strData.map (·.map (·.2)) = some (T.strings.map (·.2)) ∧
-      cm.stringIds = some T.stringIds ∧ cm.typeIds = some T.typeIds ∧
-      cm.protoIds.map (·.map (·.raw)) = some T.protoIds ∧
-      cm.fieldIds.map (·.map (·.raw)) = some T.fieldIds ∧
-      cm.methodIds.map (·.map (·.raw)) = some T.methodIds ∧
-      cm.typeLists.map (·.map (·.2)) = some T.typeLists ∧
-      cm.classData.map (·.map (·.2)) = some (T.classData.map (·.1)) ∧
-      cm.codes.map (·.map (·.2)) = some T.codes ∧
-      cm.classDefs.map (·.map (·.raw)) = some T.classDefs
+  ∀ (file : Bytes) (L : Layout) (T : Tables), WF T L → Encodes file L T →
+    readMap file L.mapOff = .ok L.map ∧ loadEntries file L.map = .ok (tablesCM T L) ∧
+    parseDex file = .ok (declared T L)
+
+theorem parse_encode : C05_full := fun _ _ _ hwf henc =>
+  ⟨readMap_enc henc, loadEntries_tables henc hwf, parseDex_declared henc hwf⟩
+
+/-- the rows the loader holds are the rows of the tables (the statement of the first delivery's
+    `C05_full`, for the sections that are in the map) -/
+theorem tables_rows (T : Tables) (L : Layout) :
+    (tablesCM T L).stringIds = (L.sec 0x0001).map (fun _ => T.stringIds) ∧
+    (tablesCM T L).typeIds = (L.sec 0x0002).map (fun _ => T.typeIds) ∧
+    (tablesCM T L).protoIds.map (·.map (·.raw)) = (L.sec 0x0003).map (fun _ => T.protoIds) ∧
+    (tablesCM T L).fieldIds.map (·.map (·.raw)) = (L.sec 0x0004).map (fun _ => T.fieldIds) ∧
+    (tablesCM T L).methodIds.map (·.map (·.raw)) = (L.sec 0x0005).map (fun _ => T.methodIds) ∧
+    (tablesCM T L).classDefs.map (·.map (·.raw)) = (L.sec 0x0006).map (fun _ => T.classDefs) := by
+  refine ⟨rfl, rfl, ?_, ?_, ?_, ?_⟩ <;>
+    simp [tablesCM, Option.map_map, Function.comp_def, List.map_map, protoR, fieldR, methodR, classR]
 
 /-! ## lookups -/
 
@@ -384,5 +418,20 @@ example : Ascending 0 [0, 3, 3, 10] ∧ diffs 0 [0, 3, 3, 10] = [0, 3, 0, 7] :=
 example : ValidMethodKey (ascii "LA;", ascii "<init>", ascii "(I J)V") :=
   ⟨⟨ascii "LA", by decide, by decide⟩, by decide, by decide, ⟨_, rfl⟩⟩
 example : ((allFields witness).map FieldV.triple).Nodup := by decide +kernel
+
+/-- a real DEX file (harness/dexasm.py: class `LFoo;` implements `Ljava/lang/Runnable;`, source file,
+    two fields, three methods with code; map entries also for the header and the map list itself)
+    encodes well-formed tables, so `parse_encode` applies to it … -/
+example : WF Example.T Example.L ∧ Encodes Example.file Example.L Example.T := ⟨Example.wf, Example.encodes⟩
+example : parseDex Example.file = .ok (declared Example.T Example.L) :=
+  (parse_encode _ _ _ Example.wf Example.encodes).2.2
+/-- … and what it declares is not trivial -/
+example : (declared Example.T Example.L).classes.map (fun c => [c.name, c.super] ++ c.ifaces ++ c.src.toList) =
+    [[ascii "LFoo;", ascii "Ljava/lang/Object;", ascii "Ljava/lang/Runnable;", ascii "Foo.java"]] := by decide +kernel
+example : (allFields (declared Example.T Example.L)).map (fun f => [f.cls, f.name, f.typ]) =
+    [[ascii "LFoo;", ascii "X", ascii "I"], [ascii "LFoo;", ascii "y", ascii "J"]] := by decide +kernel
+example : (allMethods (declared Example.T Example.L)).map (fun m => [m.name, m.desc] ++ (m.code.map (·.insns)).toList) =
+    [[ascii "<init>", ascii "()V", [112, 16, 3, 0, 0, 0, 14, 0]], [ascii "f", ascii "(I J)I", [18, 16, 15, 0]],
+     [ascii "run", ascii "()V", [14, 0]]] := by decide +kernel
 
 end AgVerif.C05
